@@ -84,7 +84,7 @@ theorem srcCtx_initial (hq : QInv Mb q Gc) (hT : SemInv (famCtx Fam G pops σ' h
   have hcV : ∀ n ∈ vnames c, n ∈ regularNodes Gc := fun n hn => (jcT.within n hn).elim id (fun a => by cases a)
   -- the joint clause in the source context
   have jc : JC (srcCtx Fam G pops σ' h d hd zs (nsort_nonempty hne)) (line6Query q d g Z) (g.removeNodes Z') c := by
-    refine ⟨rfl, ?_, ?_, ?_, ?_, jcT.plain, ?_⟩
+    refine ⟨rfl, ?_, ?_, ?_, ?_, jcT.plain, ?_, jcT.nodup⟩
     pick_goal 4
     · intro z hz
       exact jcT.cover z (hZc z ((hzsZ z).1 hz))
